@@ -452,16 +452,17 @@ Split(w, n) == [hdr |-> Take(w, Len(w) - n), pay |-> n]
 ---------------------------------------------------------------------------
 (* Properties of the oracle itself (checked by TLC on every packet)         *)
 
-Starts(s) == LET w == EncStack(s) IN [i \in 1..Len(s) |-> Len(w) - Len(Asm(s, i).b) + 1]
+\* first byte of every layer of a completed stack
+RECURSIVE StartsFrom(_, _, _)
+StartsFrom(v, i, at) == IF i > Len(v) THEN <<>> ELSE <<at>> \o StartsFrom(v, i + 1, at + Len(Hdr(v[i])))
+Starts(v) == StartsFrom(v, 1, 1)
 
 \* every checksum the oracle emits makes its block sum to zero (RFC 1071),
-\* every length field is the real length
-WireOK(s) ==
-  LET w  == EncStack(s)
-      v  == FillStack(s)
-      st == Starts(s)
+\* every length field is the real length.  v: completed stack, w: its bytes
+WireOK(v, w) ==
+  LET st == Starts(v)
       n  == Len(w)
-  IN \A i \in 1..Len(s) :
+  IN \A i \in 1..Len(v) :
        CASE v[i].p = "ipv4" ->
               /\ SumsToZero(SubSeq(w, st[i], st[i] + 4 * v[i].hl - 1))
               /\ N16(w, st[i] + 2) = n - st[i] + 1
@@ -487,13 +488,4 @@ WireOK(s) ==
 \* field values fit their widths
 StackOK(s) == \A i \in 1..Len(s) : HasLayout(s[i].p) => FixedOK(Layouts[s[i].p], s[i])
 
-\* parse(serialise(s)) = s with derived fields, serialise(parse(b)) = b,
-\* serialising the completed stack changes nothing
-RoundTripOK(s) ==
-  LET w == EncStack(s)
-      d == ParseStack(w)
-  IN /\ Norm(d) = Norm(Expand(FillStack(s)))
-     /\ EncStack(d) = w
-     /\ EncStack(FillStack(s)) = w
-     /\ IsBytes(w)
 =============================================================================
